@@ -444,6 +444,24 @@ def check_heap_flags(ctx: Ctx, oid: str):
                 blk = _enclosing_block(g.node, n)
                 ok = any(isinstance(x, ast.Expr) and isinstance(x.value, ast.Call) and ast.unparse(x.value.func) == "heappush" and ast.unparse(x.value.args[1]).endswith(f", {var})") for x in blk)
                 ctx.ob(oid, "R16 PAIRED-EFFECTS", g, "the in-heap flag is set only together with a push of that variable", ok, "", node=n)
+    # the heap is built once and then changed only entry by entry: a wholesale rebuild drops entries while the in-heap
+    # flags of the variables it leaves out stay set, and backtracking will not re-insert them
+    for g in fns:
+        if g is f:
+            continue
+        for n in own_nodes(g.node):
+            rebuilt = None
+            if isinstance(n, (ast.Assign, ast.AugAssign)):
+                for t in n.targets if isinstance(n, ast.Assign) else [n.target]:
+                    b_ = t
+                    while isinstance(b_, (ast.Subscript, ast.Attribute)):
+                        b_ = b_.value
+                    if isinstance(b_, ast.Name) and b_.id == "var_heap":
+                        rebuilt = n
+            elif isinstance(n, ast.Call) and ast.unparse(n.func) in ("heapify", "var_heap.clear", "var_heap.sort") and (not n.args or ast.unparse(n.args[0]) == "var_heap"):
+                rebuilt = n
+            if rebuilt is not None:
+                ctx.ob(oid, "R16 PAIRED-EFFECTS", g, "the decision heap is changed only by single pushes and pops", False, f"`{ast.unparse(rebuilt)[:60]}` rebuilds the heap: variables that are assigned at that moment lose their entries but keep their in-heap flag, so backtracking never offers them again and a partial assignment is published as a model", node=rebuilt)
     ctx.floor("decision heap pops", pops, 1)
     ctx.floor("in-heap flag sets", pushes, 1)
     un = ctx.func("sat", "solve_sat.unassign_to")
@@ -548,6 +566,9 @@ def check_bcp(ctx: Ctx, oid: str):
     _need(ctx, oid, "R16 PAIRED-EFFECTS", p, "a non-false literal found among positions 2.. replaces the falsified watch: swapped into position 1, this watch entry removed, the new literal watched, and the scan stays at the same index", ["for k in range(2, len(clause)):\n                if lit_value(clause[k]) is not False:\n                    clause[1], clause[k] = (clause[k], clause[1])\n                    watches[i] = watches[-1]\n                    watches.pop()\n                    add_watch(clause[1], clause_idx)\n                    found = True\n                    break", "if found:\n                continue", "found = False"])
     _need(ctx, oid, "R1 STATUS-GUARD", p, "with no replacement: the clause is a conflict if its first watch is false, otherwise that literal is asserted with the clause as reason", ["if first_val is False:\n                conflicts += 1\n                return clause_idx\n            else:\n                assign(lit_var(clause[0]), clause[0] > 0, clause_idx)\n            i += 1"])
     _need(ctx, oid, "R1 STATUS-GUARD", p, "the scan visits every watch of the falsified literal; 'no conflict' is returned only after the queue ran empty", ["watches = watch_list(false_lit)\n        i = 0\n        while i < len(watches):\n            clause_idx = watches[i]\n            clause = get_clause(clause_idx)"])
+    blocks = [i for i, st_ in enumerate(p.node.body) if isinstance(st_, ast.If) and "trail_lim" in names_in(st_.test) and "assumptions" in {x.id for x in ast.walk(st_) if isinstance(x, ast.Name)}]
+    queue = [i for i, st_ in enumerate(p.node.body) if isinstance(st_, ast.While) and "prop_head" in names_in(st_.test)]
+    ctx.ob(oid, "R16 PAIRED-EFFECTS", p, "at level 0 the assumptions are asserted before the queue is processed (so that they are propagated by this very call)", len(blocks) == 1 and len(queue) == 1 and blocks[0] < queue[0], "assumption literals asserted after the queue loop stay unpropagated: when they leave no free variable the assignment is published without any clause having been checked against it", node=p.node.body[blocks[0]] if blocks else p.node)
     rets = [ast.unparse(r.value) for r in own_nodes(p.node) if isinstance(r, ast.Return)]
     cfg = cfg_of(p.node)
     last = p.node.body[-1]
